@@ -30,7 +30,7 @@ def check(ctx):
 
 
 MANIFEST = {
-    "technique": "static analysis: CFG path rule on MIR (lookup order along the all-miss path, no later lookup from hit edges) + regex language analysis (DFA first-byte set, capture structure, language inclusion) + panic-site discharge",
+    "technique": "static analysis: CFG path rule on MIR (lookup order along the all-miss path, no later lookup from hit edges) + regex language analysis (DFA first-byte set, capture structure, language inclusion) + provenance of the text handed to each lookup (capture groups through or_else / map chains) + panic-site discharge",
     "level": "Decides the three clauses of C20 from the source: the precedence order as a property of dict_to_dis's control-flow graph (all paths), "
     "'text without $ is unchanged' and 'every tag name is substitutable' as properties of the regular expression's language (exhaustive over the "
     "language by automata, not over sample strings), and 'substitution never panics' by discharging every panic site on the display path.",
